@@ -12,6 +12,7 @@ import (
 	"fmt"
 	"os"
 	"path/filepath"
+	"runtime"
 	"strconv"
 	"sync"
 	"sync/atomic"
@@ -197,6 +198,55 @@ func scenarioStress(seed uint64, senders, jobs, workers int) wRes {
 	return wRes{Scenario: "stress", Ok: ok, What: what, Sent: sent, Executed: e, Twice: tw}
 }
 
+// Run - deferred Send - Stop - Run again - deferred Sends: the second session must flush them too
+func scenarioRestart(single bool) wRes {
+	if single {
+		defer runtime.GOMAXPROCS(runtime.GOMAXPROCS(1))
+	}
+	ctx := context.Background()
+	c := &counter{n: map[int]int{}}
+	p := New(Options{NumWorkers: 1, SendDuration: 2 * time.Millisecond})
+	// session A: busy worker, full buffer, one deferred Send, Stop at once
+	p.Run(ctx)
+	la := make(chan struct{})
+	p.Send(ctx, c.job(1001, la))
+	time.Sleep(3 * time.Millisecond)
+	p.Send(ctx, c.job(1002, nil))
+	p.Send(ctx, c.job(1003, nil))
+	p.Send(ctx, c.job(1004, nil)) // deferred
+	stopped := make(chan struct{})
+	go func() { p.Stop(); close(stopped) }()
+	time.Sleep(time.Millisecond)
+	close(la)
+	select {
+	case <-stopped:
+	case <-time.After(3 * time.Second):
+		return wRes{Scenario: "restart", Ok: false, What: "Stop did not return (session A)"}
+	}
+	// session B
+	c2 := &counter{n: map[int]int{}}
+	p.Run(ctx)
+	lb := make(chan struct{})
+	sent := 0
+	send := func(id int, l chan struct{}) { p.Send(ctx, c2.job(id, l)); sent++ }
+	send(1, lb)
+	time.Sleep(3 * time.Millisecond)
+	send(2, nil)
+	send(3, nil)
+	send(4, nil) // deferred
+	send(5, nil) // deferred
+	send(6, nil) // deferred
+	close(lb)
+	ok := waitFor(func() bool { e, _ := c2.stats(sent); return e == sent }, 2*time.Second)
+	e, tw := c2.stats(sent)
+	go p.Stop()
+	what := ""
+	if !ok {
+		what = fmt.Sprintf("after Stop and a second Run: %d jobs accepted by Send, only %d executed", sent, e)
+	}
+	return wRes{Scenario: "restart", Ok: ok && tw == 0, What: what, Sent: sent, Executed: e, Twice: tw}
+}
+
 func scenarioOrders() []wRes {
 	ctx := context.Background()
 	var out []wRes
@@ -269,6 +319,16 @@ func TestVerifC16(t *testing.T) {
 		}
 		for i := 0; i < reps; i++ {
 			flush(guarded("handoff", scenarioHandoff))
+			n++
+		}
+	}
+	if only == "" || only == "restart" {
+		reps := 6
+		if thorough {
+			reps = 40
+		}
+		for i := 0; i < reps; i++ {
+			flush(guarded("restart", func() wRes { return scenarioRestart(i%2 == 0) }))
 			n++
 		}
 	}
